@@ -915,3 +915,261 @@ theorem turn_module (c : Consts) (env : Env) (hq : Quiet env) (D E : Nat) (hb : 
       · unfold restAfter; dsimp only; omega
 
 end Frappy.Poller
+
+namespace Frappy.Poller
+open Spec.C13 (startsOf GapsLe pairs)
+
+/-! ## from turns to runs: the distance between consecutive main polls -/
+
+/-- everything one turn can contain: every module's `doPoll` and the clock read after it, one slow poll, the
+clock read at the top -/
+def sweepBound (n D E : Nat) : Nat := n * (D + E) + D + E
+
+/-- the sharper bound that the invariant yields -/
+def gapBound (n D E I : Nat) : Nat := Nat.max I D + (n - 1) * (D + E) + D + 2 * E
+
+theorem gapBound_le (n D E I : Nat) (hn : 0 < n) : gapBound n D E I ≤ I + sweepBound n D E := by
+  unfold gapBound sweepBound
+  have h1 : Nat.max I D ≤ I + D := Nat.max_le.2 ⟨Nat.le_add_right _ _, Nat.le_add_left _ _⟩
+  have h2 : n * (D + E) = (n - 1) * (D + E) + (D + E) := by
+    have : n = (n - 1) + 1 := by omega
+    conv => lhs; rw [this, Nat.add_mul, Nat.one_mul]
+  omega
+
+theorem gapsLe_mono (l : List Nat) (a b : Nat) (h : a ≤ b) (hl : GapsLe l a) : GapsLe l b := by
+  intro ab hab; have := hl ab hab; omega
+
+theorem gapsLe_append_single : ∀ (l : List Nat) (B t : Nat), GapsLe l B →
+    (∀ a, l.getLast? = some a → t ≤ a + B) → GapsLe (l ++ [t]) B
+  | [], _, _, _, _ => by intro ab hab; simp [pairs] at hab
+  | [a], B, t, _, h2 => by
+    intro ab hab
+    simp only [List.cons_append, List.nil_append, pairs, List.mem_singleton] at hab
+    subst hab
+    exact h2 a rfl
+  | a :: b :: rest, B, t, h1, h2 => by
+    intro ab hab
+    simp only [List.cons_append, pairs, List.mem_cons] at hab
+    rcases hab with hab | hab
+    · subst hab
+      exact h1 (a, b) (by simp [pairs])
+    · have ih := gapsLe_append_single (b :: rest) B t
+        (fun x hx => h1 x (by simp only [pairs, List.mem_cons]; exact Or.inr hx))
+        (fun x hx => h2 x (by simpa [List.getLast?_cons_cons] using hx))
+      exact ih ab (by simpa using hab)
+
+/-- the per-module invariant between turns -/
+structure GapInv (n i D E I : Nat) (σ : PollState) (m : Mod) : Prop where
+  len : σ.mods.length = n
+  get : σ.mods[i]? = some m
+  en : m.enabled = true
+  iv : m.interval = I
+  le : m.lastMain ≤ m.lastStart
+
+/-- the clock is not far beyond the last start -/
+def ClockInv (n i D E I : Nat) (σ : PollState) (m : Mod) : Prop :=
+  σ.clock ≤ m.lastStart + Nat.max I D + restAfter n i D E
+
+theorem run_gaps (c : Consts) (env : Env) (hq : Quiet env) (D E : Nat) (hb : Bounded env D E) (n i I : Nat)
+    (hi : i < n) (k : Nat) : ∀ (σ : PollState) (m : Mod) (evs : List Event), GapInv n i D E I σ m →
+    GapsLe (startsOf evs i) (gapBound n D E I) →
+    (∀ a, (startsOf evs i).getLast? = some a → m.lastStart = a ∧ ClockInv n i D E I σ m) →
+    GapsLe (startsOf (run c env k σ evs).evs i) (gapBound n D E I) := by
+  induction k with
+  | zero => intro σ m evs _ hg _; exact hg
+  | succ k ih =>
+    intro σ m evs hinv hg hlink
+    simp only [run]
+    obtain ⟨m', hm', hlen, hen, hiv, hcase⟩ := turn_module c env hq D E hb σ i m hinv.get
+    have hmaxI : I ≤ Nat.max I D := Nat.le_max_left _ _
+    have hmaxD : D ≤ Nat.max I D := Nat.le_max_right _ _
+    rw [hinv.len] at hcase
+    rcases hcase with ⟨hst, hlm, hls, hcl⟩ | ⟨t, hst, _, hls, hlm, hlo, hhi, hcl, _⟩
+    · -- no main poll of `i` in this turn
+      have hinv' : GapInv n i D E I (turn c env σ).σ m' :=
+        ⟨by rw [hlen, hinv.len], hm', by rw [hen, hinv.en], by rw [hiv, hinv.iv], by rw [hlm, hls]; exact hinv.le⟩
+      apply ih _ m' _ hinv'
+      · rw [startsOf_append, hst, List.append_nil]; exact hg
+      · rw [startsOf_append, hst, List.append_nil]
+        intro a ha
+        obtain ⟨h1, _⟩ := hlink a ha
+        refine ⟨by rw [hls]; exact h1, ?_⟩
+        have := (hcl hinv.en).1
+        have h3 := hinv.le
+        have h4 := hinv.iv
+        unfold ClockInv
+        rw [hls]
+        omega
+    · -- `doPoll i` at time `t`
+      have hinv' : GapInv n i D E I (turn c env σ).σ m' :=
+        ⟨by rw [hlen, hinv.len], hm', by rw [hen, hinv.en], by rw [hiv, hinv.iv], by rw [hls]; exact hlm⟩
+      apply ih _ m' _ hinv'
+      · rw [startsOf_append, hst]
+        apply gapsLe_append_single _ _ _ hg
+        intro a ha
+        obtain ⟨h1, h2⟩ := hlink a ha
+        unfold ClockInv restAfter at h2
+        unfold gapBound
+        have h5 : i * (D + E) + (n - 1 - i) * (D + E) = (n - 1) * (D + E) := by
+          rw [← Nat.add_mul]; congr 1; omega
+        omega
+      · rw [startsOf_append, hst]
+        intro a ha
+        simp only [List.getLast?_append, List.getLast?_singleton, Option.some_or, Option.some.injEq] at ha
+        subst ha
+        refine ⟨hls, ?_⟩
+        unfold ClockInv
+        rw [hls]
+        omega
+
+end Frappy.Poller
+
+namespace Frappy.Poller
+open Spec.C13 (startsOf GapsLe pairs)
+
+/-! ## the start-up round makes no main polls and leaves the bookkeeping alone -/
+
+theorem startsOf_snoc_other (evs : List Event) (ev : Event) (i : Nat) (h : ev.f ≠ .doPoll) :
+    startsOf (evs ++ [ev]) i = startsOf evs i := by
+  rw [startsOf_append]
+  have : startsOf [ev] i = [] := by
+    simp [startsOf, h]
+  rw [this, List.append_nil]
+
+theorem initAll_quiet (env : Env) (hq : Quiet env) (i : Nat) (is : List Nat) : ∀ σ evs,
+    (initAll env is σ evs).σ.mods = σ.mods ∧ startsOf (initAll env is σ evs).evs i = startsOf evs i := by
+  induction is with
+  | nil => intro σ evs; exact ⟨rfl, rfl⟩
+  | cons j is ih =>
+    intro σ evs
+    have hmods : (call env σ j .init).σ.mods = σ.mods := runCall_mods env hq σ
+    have hst : startsOf (evs ++ [(call env σ j .init).ev]) i = startsOf evs i :=
+      startsOf_snoc_other evs _ i (by simp [call])
+    simp only [initAll]
+    split
+    · exact ⟨hmods, hst⟩
+    · obtain ⟨a, b⟩ := ih (call env σ j .init).σ (evs ++ [(call env σ j .init).ev])
+      exact ⟨by rw [a, hmods], by rw [b, hst]⟩
+
+theorem readAll_quiet (env : Env) (hq : Quiet env) (i : Nat) (es : List Entry) : ∀ σ evs,
+    (readAll env es σ evs).σ.mods = σ.mods ∧ startsOf (readAll env es σ evs).evs i = startsOf evs i := by
+  induction es with
+  | nil => intro σ evs; exact ⟨rfl, rfl⟩
+  | cons e es ih =>
+    intro σ evs
+    have hmods : (call env σ e.1 (.read e.2)).σ.mods = σ.mods := runCall_mods env hq σ
+    have hst : startsOf (evs ++ [(call env σ e.1 (.read e.2)).ev]) i = startsOf evs i :=
+      startsOf_snoc_other evs _ i (by simp [call])
+    simp only [readAll]
+    split
+    · exact ⟨hmods, hst⟩
+    · obtain ⟨a, b⟩ := ih (call env σ e.1 (.read e.2)).σ (evs ++ [(call env σ e.1 (.read e.2)).ev])
+      exact ⟨by rw [a, hmods], by rw [b, hst]⟩
+
+theorem waitEvent_quiet (env : Env) (hq : Quiet env) (σ : PollState) (timeout : Nat) :
+    (waitEvent env σ timeout).mods = σ.mods := (doWait_quiet env hq σ timeout).1
+
+theorem prologue_quiet (c : Consts) (env : Env) (hq : Quiet env) (i : Nat) (σ : PollState) :
+    (prologue c env σ).σ.mods = σ.mods ∧ startsOf (prologue c env σ).evs i = [] := by
+  obtain ⟨a1, b1⟩ := initAll_quiet env hq i (List.range σ.mods.length) σ []
+  unfold prologue
+  simp only
+  split
+  · exact ⟨by rw [waitEvent_quiet env hq, a1], b1⟩
+  · obtain ⟨a2, b2⟩ := readAll_quiet env hq i (allEntries 0 (initAll env (List.range σ.mods.length) σ []).σ.mods)
+      (initAll env (List.range σ.mods.length) σ []).σ (initAll env (List.range σ.mods.length) σ []).evs
+    split
+    · exact ⟨by rw [waitEvent_quiet env hq, a2, a1], by rw [b2, b1]; rfl⟩
+    · exact ⟨by rw [a2, a1], by rw [b2, b1]; rfl⟩
+
+end Frappy.Poller
+
+namespace Frappy.Poller
+
+/-! ## waits in general environments; interval changes -/
+
+theorem waitBatches_clock_le (timeout t0 : Nat) (bs : List (Nat × List Ext)) : ∀ σ,
+    (waitBatches timeout t0 bs σ).clock ≤ t0 + timeout := by
+  induction bs with
+  | nil => intro σ; exact Nat.le_refl _
+  | cons b bs ih =>
+    intro σ
+    obtain ⟨d, exts⟩ := b
+    simp only [waitBatches]
+    split
+    · split
+      · simp only; omega
+      · exact ih _
+    · exact Nat.le_refl _
+
+theorem doWait_clock_le (env : Env) (σ : PollState) (timeout : Nat) :
+    (doWait env σ timeout).clock ≤ σ.clock + timeout := by
+  unfold doWait waitEvent
+  simp only
+  split
+  · exact Nat.le_add_right _ _
+  · exact waitBatches_clock_le timeout σ.clock _ σ
+
+theorem doWait_trig (env : Env) (σ : PollState) (timeout : Nat) (h : σ.trig = true) :
+    (doWait env σ timeout).clock = σ.clock ∧ (doWait env σ timeout).mods = σ.mods := by
+  unfold doWait waitEvent
+  simp [h]
+
+theorem applyExts_single (σ : PollState) (e : Ext) : applyExts [e] σ = applyExt σ e := rfl
+
+/-- a wait in progress ends at the moment another thread does something that sets the event -/
+theorem waitEvent_interrupted (env : Env) (σ : PollState) (timeout d : Nat) (e : Ext) (rest : List (Nat × List Ext))
+    (ht : σ.trig = false) (hw : env.wake σ.nWait = (d, [e]) :: rest) (hd : d ≤ timeout)
+    (he : extTriggers σ.mods e = true) :
+    (waitEvent env σ timeout).clock = σ.clock + d ∧ (waitEvent env σ timeout).mods = applyExtMods σ.mods e := by
+  unfold waitEvent
+  simp only [ht, hw, waitBatches, hd, if_true, applyExts_single, applyExt, he, Bool.false_or]
+  exact ⟨rfl, rfl⟩
+
+end Frappy.Poller
+
+namespace Frappy.Poller
+
+theorem scan_length (σ : PollState) (now : Nat) : ∀ (l : List Entry) (e : Entry) (rest : List Entry),
+    scan σ now l = some (e, rest) → rest.length < l.length := by
+  intro l
+  induction l with
+  | nil => intro e rest h; cases h
+  | cons a as ih =>
+    intro e rest h
+    simp only [scan] at h
+    split at h
+    · cases h; simp
+    · have := ih e rest h; simp only [List.length_cons]; omega
+
+end Frappy.Poller
+
+namespace Frappy.Poller
+
+/-! ## data for the non-vacuity examples -/
+
+def exConsts : Consts := ⟨1000, 5⟩
+
+/-- every poll function lasts 3 ticks and ends with an arbitrary exception; the clock moves one tick per read;
+`stamp := c` stamps the parameter read by the call with the time the call began -/
+def exEnv : Env :=
+  { adv := fun _ => 0, dur := fun _ => 3, out := fun _ => .exc, touch := fun _ => [], ext := fun _ => [],
+    wake := fun _ => [] }
+
+def exMod (interval slow : Nat) (polled : List Nat) : Mod :=
+  { enabled := true, slow := slow, polled := polled, pollinterval := interval, interval := interval, fast := false,
+    lastMain := 0, lastSlow := 0, lastStart := 0 }
+
+/-- two polled modules (intervals 10 and 25 ticks) and one that is only written at start-up, at clock 1000 -/
+def exState : PollState :=
+  { clock := 1000, nRead := 0, nCall := 0, nWait := 0, trig := false,
+    mods := [exMod 10 40 [0, 1], exMod 25 60 [2], { exMod 7 50 [] with enabled := false }],
+    toPoll := none, stamp := fun _ _ => 0 }
+
+theorem exEnv_quiet : Quiet exEnv where
+  ext := by intro k e h; cases h
+  wake := by intro k b h; cases h
+
+theorem exEnv_bounded : Bounded exEnv 3 1 := ⟨fun _ => Nat.le_refl _, fun _ => Nat.le_refl _⟩
+
+end Frappy.Poller
